@@ -201,3 +201,27 @@ def build(rnd, big=False):
     info.update(has_got=has_got, has_stack=has_stack, has_symtab=has_symtab, got_n=(got or {}).get("n", 0), stack=stack_size,
                 nsym=nsym, exit_idx=exit_idx, size=52 + len(body))
     return hdr + bytes(body), info
+
+
+def simple(image, exit_off=None, stack=0x1000, bss=0):
+    """A minimal well-formed executable: one PT_LOAD segment holding `image` at vaddr 0, .stack, optional ___exit."""
+    image = bytes(image)
+    shstr = b"\0.text\0.stack\0.symtab\0.strtab\0.shstrtab\0"
+    strtab = b"\0___exit\0_start\0"
+    syms = struct.pack(">IIIBBH", 0, 0, 0, 0, 0, 0) + struct.pack(">IIIBBH", 9, 0, 0, 0x12, 0, 1)
+    if exit_off is not None:
+        syms += struct.pack(">IIIBBH", 1, exit_off, 0, 0x12, 0, 1)
+    off_img = 52 + 32
+    off_sym = off_img + len(image)
+    off_str = off_sym + len(syms)
+    off_shstr = off_str + len(strtab)
+    shoff = off_shstr + len(shstr)
+    def sh(name, ty, addr, off, size, link=0, entsize=0):
+        return be32(shstr.index(name)) + be32(ty) + be32(0) + be32(addr) + be32(off) + be32(size) + be32(link) + be32(0) + be32(1) + be32(entsize)
+    sht = (bytes(40) + sh(b".text\0", 1, 0, off_img, len(image)) + sh(b".stack\0", 8, stack, 0, 0)
+           + sh(b".symtab\0", 2, 0, off_sym, len(syms), link=4, entsize=16) + sh(b".strtab\0", 3, 0, off_str, len(strtab))
+           + sh(b".shstrtab\0", 3, 0, off_shstr, len(shstr)))
+    ph = be32(1) + be32(off_img) + be32(0) + be32(0) + be32(len(image)) + be32(len(image) + bss) + be32(7) + be32(4)
+    hdr = (b"\x7fELF" + bytes([1, 2, 1, 0, 0]) + bytes(7) + be16(2) + be16(46) + be32(1) + be32(BASE) + be32(52) + be32(shoff)
+           + be32(0) + be16(52) + be16(32) + be16(1) + be16(40) + be16(6) + be16(5))
+    return hdr + ph + image + syms + strtab + shstr + sht
